@@ -11,7 +11,9 @@ DESIGN_REF = "4/C01"
 EXTRA_LEAN_MODULES = ["BioCantor.Props.C01Ties", "BioCantor.Props.C01Ties2"]
 GEN_NEEDS = ["SingleInterval_", "Strand_", "CompoundInterval_scan_blocks", "CompoundInterval_parent_to_relative_pos",
              "CompoundInterval_relative_to_parent_pos", "CompoundInterval_relative_interval_to_parent_location",
-             "CompoundInterval_is_overlapping", "CompoundInterval_has_overlap"]
+             "CompoundInterval_is_overlapping", "CompoundInterval_has_overlap", "CompoundInterval_combine_blocks",
+             "CompoundInterval_optimize_blocks", "CompoundInterval_optimize_and_combine_blocks",
+             "CompoundInterval_gap_list"]
 DRIVER = "drivers/C01.lean"
 SPEC_DRIVER = "drivers/SpecC01.lean"
 DRIVER_MODULES = ["BioCantor.Driver.Main", "BioCantor.Driver.Loc"]
@@ -28,7 +30,7 @@ ASSUMPTIONS = ["locations without parents (parent gates are C02/C04)",
                "coordinates are non-negative ints; Python ints modelled as unbounded Int/Nat"]
 MODEL_OPS = None
 STRANDS = ["+", "-"]
-G_OPS = {"gp2r", "gr2p", "grelint"}
+G_OPS = {"gp2r", "gr2p", "grelint", "goptimize", "goptcombine", "ggaplist", "gisov", "ghasov"}
 G_TWIN = {"p2r": "gp2r", "r2p": "gr2p", "relint": "grelint"}
 
 
@@ -108,6 +110,16 @@ def _cases(run):
                     if st == "." and len(blocks) > 2:
                         continue
                     yield from _ops_for(kind, st, blocks, run)
+                    if kind == "C" and run.rng.random() < 0.5:
+                        # the generated _combine_blocks loop (optimize_blocks / optimize_and_combine_blocks) vs the library
+                        yield f"goptimize {enc_loc(kind, st, blocks)}"
+                        yield f"goptcombine {enc_loc(kind, st, blocks)}"
+                        yield f"ggaplist {enc_loc(kind, st, blocks)}"
+                        yield f"gisov {enc_loc(kind, st, blocks)}"
+                        hi = max(e for _, e in blocks)
+                        s0 = run.rng.randint(0, hi + 1)
+                        yield (f"ghasov {enc_loc(kind, st, blocks)} "
+                               f"{enc_loc('S', run.rng.choice('+-.'), [(s0, run.rng.randint(s0, hi + 2))])}")
     # relative-location form: all ordered pairs of small layouts
     pg = 3 if run.tier == "quick" else 4
     small = list(gen_loc.layouts_exhaustive(2, pg))
@@ -137,6 +149,12 @@ def _cases(run):
             a = run.rng.randint(0, ln)
             b = run.rng.randint(a, ln)
             yield f"relint {loc} {a} {b} {run.rng.choice('+-.')}"
+        yield f"goptimize {loc}"
+        yield f"goptcombine {loc}"
+        yield f"ggaplist {loc}"
+        yield f"gisov {loc}"
+        s0 = run.rng.randint(0, hi + 1)
+        yield f"ghasov {loc} {enc_loc('S', run.rng.choice('+-.'), [(s0, run.rng.randint(s0, hi + 2))])}"
         if scale <= 5000:
             other = gen_loc.random_layout(run.rng, max_blocks=6, max_coord=scale, p_overlap=0.05)
             yield f"locrel {loc} {enc_loc('C', run.rng.choice(STRANDS), other)} {run.rng.choice('01')}"
